@@ -1,6 +1,7 @@
 package chainsim
 
 import (
+	"math/big"
 	"strings"
 	"fmt"
 	"os"
@@ -337,5 +338,91 @@ func TestC10(t *testing.T) {
 				}
 			},
 		}
+	})
+}
+
+// ---------------------------------------------------------------- byzantine halves of C07 / C08 / C09
+
+func byzHooks(prop string, fail func(class, witness, detail string)) (map[string]bool, func(w *World, n *Node, m Mutation, out ByzOutcome)) {
+	props := map[string]bool{prop: true, "observe": true}
+	return props, func(w *World, n *Node, m Mutation, out ByzOutcome) {
+		if m.Prop == "observe" {
+			if out.Accepted {
+				simkit.Global.Inc("probe.observe_row_accepted." + m.Name)
+			}
+			return
+		}
+		if out.Accepted {
+			fail("rewrite-accepted", "mutation="+m.Name, fmt.Sprintf("a block differing from the honest candidate only by [%s] (resealed=%v) was appended and executed as head: %x", m.Name, m.Reseal, out.Hash[:6]))
+			return
+		}
+		simkit.Global.Inc("byz_rejected")
+		if out.TraceNote != "" {
+			fail("rejected-block-left-trace", "mutation="+m.Name, fmt.Sprintf("the rejected block [%s] %x changed chain state: %s", m.Name, out.Hash[:6], out.TraceNote))
+		}
+	}
+}
+
+func TestC07Byz(t *testing.T) {
+	chainProperty(t, "C07", func(r *Runner, fail func(class, witness, detail string)) Hooks {
+		props, cb := byzHooks("C07", fail)
+		return Hooks{ByzProps: props, Byz: cb}
+	})
+}
+
+func TestC09(t *testing.T) {
+	chainProperty(t, "C09", func(r *Runner, fail func(class, witness, detail string)) Hooks {
+		props, cb := byzHooks("C09", fail)
+		return Hooks{ByzProps: props, Byz: cb, AfterHead: func(w *World, n *Node, bi *BlockInfo, reorg bool) {
+			if reorg {
+				return
+			}
+			// entropy strictly increases along every accepted edge; recorded parent entropy == parent's accumulated entropy
+			blk := n.Zone().GetBlockByHash(bi.Hash)
+			parent := n.Zone().GetBlockByHash(bi.Parent)
+			if blk == nil || parent == nil || bi.Parent == w.Gen {
+				return
+			}
+			pe := n.Zone().TotalLogEntropy(parent)
+			ce := n.Zone().TotalLogEntropy(blk)
+			if ce.Cmp(pe) <= 0 {
+				fail("entropy-monotone", "edge", fmt.Sprintf("#%d entropy %v <= parent entropy %v", bi.Number, ce, pe))
+				return
+			}
+			if blk.ParentEntropy(common.ZONE_CTX).Cmp(pe) != 0 {
+				fail("entropy-monotone", "parent-entropy-field", fmt.Sprintf("#%d records parent entropy %v, parent's accumulated entropy is %v", bi.Number, blk.ParentEntropy(common.ZONE_CTX), pe))
+				return
+			}
+			// order is a deterministic function of the block: recompute on a copy that bypasses the order cache key? same hash => same cache;
+			// compare the order computed at mining time with a fresh computation now
+			_, o2, err := n.Zone().CalcOrder(blk)
+			if err != nil || o2 != bi.Order {
+				fail("order-stable", "recalc", fmt.Sprintf("#%d order at mining %d, now %d (err %v)", bi.Number, bi.Order, o2, err))
+			}
+			simkit.Global.Inc("edges_checked")
+		}}
+	})
+}
+
+func TestC08(t *testing.T) {
+	chainProperty(t, "C08", func(r *Runner, fail func(class, witness, detail string)) Hooks {
+		props, cb := byzHooks("C08", fail)
+		return Hooks{ByzProps: props, Byz: cb, AfterHead: func(w *World, n *Node, bi *BlockInfo, reorg bool) {
+			if reorg {
+				return
+			}
+			// pow-recomputed: the accepted block's hash, recomputed by the harness with blake3 directly, meets its declared difficulty
+			blk := n.Zone().GetBlockByHash(bi.Hash)
+			if blk == nil {
+				return
+			}
+			h := blk.WorkObjectHeader()
+			ph := powHash(h.SealHash(), h.MixHash(), h.Nonce())
+			target := new(big.Int).Div(common.Big2e256, h.Difficulty())
+			if ph != bi.Hash || new(big.Int).SetBytes(ph.Bytes()).Cmp(target) > 0 {
+				fail("pow-recomputed", "accepted-block", fmt.Sprintf("#%d hash %x recomputed %x target %x", bi.Number, bi.Hash, ph, target))
+			}
+			simkit.Global.Inc("seals_recomputed")
+		}}
 	})
 }
